@@ -199,7 +199,7 @@ def rfc6793_merge(p2, p4):
     return lead + [list(x) for x in p4]
 
 
-def gen_update(rng, sess, want=None, plain_as4=False):
+def gen_update(rng, sess, want=None, plain_as4=False, overlap=False):
     """A well-formed UPDATE description.  `want`: None or a code that must be present (c08)."""
     ap = sess.addpath
     d = {'withdrawn': [], 'nlri': [], 'attrs': [], 'mp_reach': None, 'mp_unreach': None}
@@ -230,6 +230,19 @@ def gen_update(rng, sess, want=None, plain_as4=False):
     if shape in ('mpwd', 'mix'):
         fam = rng.choice(IPFAMS)
         d['mp_unreach'] = {'fam': fam, 'nlris': [gen_nlri(rng, fam, ap, True) for _ in range(rng.choice([1, 2, 3]))]}
+    if overlap:
+        # RFC 4271 4.3: the same route in WITHDRAWN ROUTES and in NLRI (IPv4 fields), or in MP_UNREACH_NLRI and
+        # MP_REACH_NLRI of one family: legal, "as though the WITHDRAWN ROUTES do not contain the prefix"
+        if d['nlri'] and rng.random() < 0.6:
+            d['withdrawn'] = d['withdrawn'] + [dict(rng.choice(d['nlri']))]
+            rng.shuffle(d['withdrawn'])
+        if d['mp_reach'] and rng.random() < 0.6:
+            n = dict(rng.choice(d['mp_reach']['nlris']))
+            if n['labels']:
+                n['labels'] = [0x800000]
+            if d['mp_unreach'] is None or d['mp_unreach']['fam'] != d['mp_reach']['fam']:
+                d['mp_unreach'] = {'fam': d['mp_reach']['fam'], 'nlris': []}
+            d['mp_unreach']['nlris'] = d['mp_unreach']['nlris'] + [n]
     announce = bool(d['nlri'] or d['mp_reach'])
     attrs = []
 
@@ -902,13 +915,19 @@ def json_vs_expected(j, exp):
 
 
 def expected_rib(pre, exp):
-    """(rib - withdrawn) (+) announced over route keys (labels are not part of a key)"""
+    """RFC 4271 4.3 / Spec_Wire.ref_rib_after over route keys (labels are not part of a key): withdrawn routes removed,
+    announced ones installed; a route both withdrawn and announced by the same UPDATE stays announced"""
     rib = dict(pre)
-    for (fam, pid, rd, mask, pfx, labels), nh in exp['ann']:
-        rib[(fam, pid, rd, mask, pfx)] = tuple(nh)
     for fam, pid, rd, mask, pfx, labels in exp['wd']:
         rib.pop((fam, pid, rd, mask, pfx), None)
+    for (fam, pid, rd, mask, pfx, labels), nh in exp['ann']:
+        rib[(fam, pid, rd, mask, pfx)] = tuple(nh)
     return rib
+
+
+def overlap_keys(exp):
+    """routes that the UPDATE both announces and withdraws"""
+    return {k[0][:5] for k in exp['ann']} & {k[:5] for k in exp['wd']}
 
 
 # ------------------------------------------------------------------------------- repeat pass: what came before must not matter
@@ -1018,7 +1037,7 @@ def check(tier, seed):
     cases = []
     for i in range(n):
         sess = sessions[i % len(sessions)]
-        desc = gen_update(rng, sess)
+        desc = gen_update(rng, sess, overlap=(i % 3 == 0))
         cases.append({'sess': sess, 'desc': desc, 'body': build(desc, sess.addpath), 'kind': 'wellformed'})
     # AS4 merge stream: a 2-byte session, AS_PATH + AS4_PATH of every small shape
     merge = []
@@ -1126,7 +1145,12 @@ def check(tier, seed):
         want = expected_rib(before, c['exp'])
         got = {k: v[0] for k, v in after.items()}
         if got != want:
-            rib_bad.append((i, sig_for(c, ['rib']) .replace('C02:', 'C02:rib-in:'), f'Adj-RIB-In {got} expected {want}'))
+            diff = {k for k in set(got) | set(want) if got.get(k) != want.get(k)}
+            if diff and diff <= overlap_keys(c['exp']):
+                rib_bad.append((i, 'C02:rib-in:withdrawn-and-announced-route-lost',
+                                f'the UPDATE withdraws and announces {sorted(diff)[:2]}: RFC 4271 4.3 keeps the announcement, Adj-RIB-In holds {got} expected {want}'))
+            else:
+                rib_bad.append((i, sig_for(c, ['rib']) .replace('C02:', 'C02:rib-in:'), f'Adj-RIB-In {got} expected {want}'))
             continue
         # attributes stored with the announced routes = the reference attribute map
         for (key, nh) in [((k[0], k[1], k[2], k[3], k[4]), nh) for k, nh in c['exp']['ann']]:
@@ -1172,6 +1196,15 @@ def check(tier, seed):
     run.obligation(f'property oracle: Adj-RIB-In after the UPDATE = (before - withdrawn) + announced, attributes as the reference, on {n_rib} bodies',
                    not rib_bad, f'{len(rib_bad)} failing; first: {rib_bad[0] if rib_bad else ""}'[:2500])
 
+    from translate import t5_attrtable
+    try:
+        wfirst, wmsg = t5_attrtable._probe_ribin_order(), ''
+    except Exception as exc:
+        wfirst, wmsg = False, str(exc)
+    run.obligation('UpdateHandler.handle / handle_async apply the withdraws of an UPDATE before its announces (hypothesis '
+                   'RIBIN_WITHDRAW_FIRST = true of C02_ribin_tree and C02_ribin_reference, read from the source by T5)',
+                   wfirst, wmsg or 'the announce loop comes first: a route both withdrawn and announced by one UPDATE is lost (RFC 4271 4.3)')
+    run.coverage['withdrawn_and_announced_cases'] = sum(1 for c in cases if c.get('exp') and overlap_keys(c['exp']))
     run.obligation('repeat pass: in one process state (AttributeCollection.unpack cache live, one Adj-RIB-In) every position of the '
                    'sequences [good;X;X] [X;X] [X;good;X] [X;Y;X] decodes as the same body decoded from a fresh state',
                    not rep_bad, f'{n_seq} sequences; {len(rep_bad)} failing; first: {rep_bad[0] if rep_bad else ""}'[:2500])
